@@ -16,7 +16,8 @@ ClauseName == <<"message outside the alphabet", "cache entry is not the import o
                 "cache seen by the released caller", "immediate call-backs of a registration",
                 "DriverReceived = Sent", "ClientCache = DriverReturned", "ClientCache error = raised error",
                 "description", "clock",
-                "concurrent updates: malformed line or lost update">>
+                "concurrent updates: malformed line or lost update",
+                "name maps identifier <-> internal name">>
 (* evaluates to b; remembers the clause number when b is false *)
 Clause(n, b) == IF b THEN TRUE ELSE ~TLCSet(NT + t, n)
 
@@ -84,6 +85,8 @@ TDescribe == /\ Clause(13, ToSet(Ev.desc) \subseteq AllKeys)
              /\ last' = [kind |-> "describe"]
              /\ UNCHANGED <<cache, cbs, waiting, now>>
              /\ Clause(4, ObsKeysOK(Ev.cache) /\ cache' = ObsCache(Ev.cache))
+             /\ Clause(16, /\ {<<x[1], x[2]>> : x \in ToSet(Ev.idmap)} = NameMaps(desc')
+                           /\ {<<x[1], x[2]>> : x \in ToSet(Ev.intmap)} = NameMaps(desc'))
 
 TE2E == /\ Clause(10, E2EReceived(Ev))
         /\ Clause(11, E2ECache(Ev))
